@@ -1,7 +1,122 @@
-(* C05 — removal never deletes content that other tracked paths still need. *)
+(* C05 — removal never deletes content that other tracked paths still need.
+   Model: Repo/Ext.v (remove_cmd, untrack_cmd, cache_remove, materialise over Repo/Model.v); proofs: Repo/ExtProofs.v.
+   [refers x a]: some version of record x (its whole digest history, with the extension of its CURRENT path) is
+   stored at cache address a.  [is_target (select r targets) e]: entity e is selected by the command's targets.
+   [holds f a c]: the object at a is a regular file with bytes c.  [obj_present f a]: there is an object at a. *)
 From Coq Require Import List Bool NArith.
-From XV Require Import Base.Amap Base.Bytes Repo.Model Repo.Ext Repo.ExtProofs.
+From XV Require Import Base.Amap Base.Bytes Repo.Model Repo.Ext Repo.ExtProofs Repo.ExtReach.
 Import ListNotations.
+Local Open Scope N_scope.
+
+(* ---- 1. remove --from-cache, every version option (current / --all-versions / --only-version) ---------------------- *)
+(* records and workspace are untouched (rm_rel: objects only disappear, inodes keep their bytes); without --force
+   an object disappears only if EVERY entity that refers to it is a target; an ambiguous --only-version prefix
+   returns Err and the repository unchanged (second theorem) *)
+Theorem remove_respects_referrers o targets r r' oc :
+  remove_cmd o targets r = (r', oc) ->
+  recs (base r') = recs (base r) /\ dirs r' = dirs r /\ rm_rel (xfs r) (xfs r') /\
+  (rm_force o = false ->
+   (forall a, obj_present (xfs r) a -> ~ obj_present (xfs r') a ->
+      forall e x, In (e, x) (recs (base r)) -> refers x a = true -> is_target (select r targets) e = true) /\
+   (forall e x d c, In (e, x) (recs (base r)) -> is_target (select r targets) e = false -> In d (r_hist x) ->
+      holds (xfs r) (cache_addr (r_path x) d) c -> holds (xfs r') (cache_addr (r_path x) d) c)).
+Proof. exact (remove_cmd_spec o targets r r' oc). Qed.
+Print rm_rel.
+
+Theorem remove_ambiguous_version_refused any ds f targets r :
+  (1 < length (flat_map (fun ex => filter (version_matches any ds) (addrs_of (snd ex))) (select r targets)))%nat ->
+  remove_cmd {| rm_versions := VOnly any ds; rm_force := f |} targets r = (r, Err).
+Proof. exact (remove_ambiguous any ds f targets r). Qed.
+
+(* ---- 2. + 3. untrack ------------------------------------------------------------------------------------------------------ *)
+(* objects: as for remove (there is no --force).  The other paths keep their records and every recorded version
+   that was in the cache (others_stay_restorable).  When the command succeeds, no record with a target's path is
+   left, and every target that was in the workspace in one of the shapes of [mat_pre] — a symlink to its current
+   object, a hard link to its current object (re-materialised only by the repair of P7), a private writable file
+   — ends as a private, writable, regular file with the same bytes [private_file]. *)
+Theorem untrack_materialises fl targets r r' oc :
+  wf_fs (xfs r) -> objs_bounded (xfs r) -> wf_recs (base r) ->
+  untrack_cmd fl targets r = (r', oc) ->
+  let tg := select r targets in
+  (forall a, obj_present (xfs r) a -> ~ obj_present (xfs r') a ->
+     forall e x, In (e, x) (recs (base r)) -> refers x a = true -> is_target tg e = true) /\
+  (forall a en, oget (xfs r') a = Some en -> oget (xfs r) a = Some en) /\
+  (forall e x, In (e, x) (recs (base r)) -> is_target tg e = false ->
+     In (e, x) (recs (base r')) /\
+     forall d c, In d (r_hist x) -> holds (xfs r) (cache_addr (r_path x) d) c -> holds (xfs r') (cache_addr (r_path x) d) c) /\
+  (oc = Ok -> forall e x, In (e, x) tg ->
+     (forall k v, In (k, v) (recs (base r')) -> r_path v <> r_path x) /\
+     forall c, mat_pre fl (xfs r) x c -> private_file (xfs r') (r_path x) c).
+Proof. exact (untrack_cmd_spec fl targets r r' oc). Qed.
+Print mat_pre.
+Print private_file.
+
+(* ... for every reachable repository (xreach: Repo/ExtReach.v, by induction over the history; see Props/C19.v) *)
+Theorem untrack_materialises_reachable fl targets r r' oc :
+  xreach fl r -> untrack_cmd fl targets r = (r', oc) ->
+  let tg := select r targets in
+  (forall a, obj_present (xfs r) a -> ~ obj_present (xfs r') a ->
+     forall e x, In (e, x) (recs (base r)) -> refers x a = true -> is_target tg e = true) /\
+  (forall a en, oget (xfs r') a = Some en -> oget (xfs r) a = Some en) /\
+  (forall e x, In (e, x) (recs (base r)) -> is_target tg e = false ->
+     In (e, x) (recs (base r')) /\
+     forall d c, In d (r_hist x) -> holds (xfs r) (cache_addr (r_path x) d) c -> holds (xfs r') (cache_addr (r_path x) d) c) /\
+  (oc = Ok -> forall e x, In (e, x) tg ->
+     (forall k v, In (k, v) (recs (base r')) -> r_path v <> r_path x) /\
+     forall c, mat_pre fl (xfs r) x c -> private_file (xfs r') (r_path x) c).
+Proof. exact (untrack_reachable fl targets r r' oc). Qed.
+
+(* "still restorable": an object that [holds] bytes c is materialised with exactly c by every recheck method
+   at a path where nothing (or something resolvable) is in the way *)
+Theorem others_stay_restorable f p a m c :
+  wf_fs f -> holds f a c -> (ws_exists f p = true \/ wget f p = None) ->
+  exists f', recheck_from_cache f p a m = (f', Ok) /\ ws_read f' p = Some c.
+Proof. exact (restorable f p a m c). Qed.
+
+(* ---- examples ------------------------------------------------------------------------------------------------------------------ *)
+(* a.txt has two versions (hello, other); b.txt (symlink) holds "hello" = the OLD version of a.txt; c.txt (hard link)
+   holds "other" = the current version of a.txt *)
+Definition h_share : list xitem :=
+  [XBase (UWrite s_a_txt s_hello); XBase (XTrack t_plain [s_a_txt]);
+   XBase (UWrite s_a_txt s_other); XBase (XTrack t_plain [s_a_txt]);
+   XBase (UWrite s_b_txt s_hello); XBase (XTrack (t_with Symlink) [s_b_txt]);
+   XBase (UWrite s_c_txt s_other); XBase (XTrack (t_with Hardlink) [s_c_txt])].
+Definition r_share : xrepo := run_xitems all_fixed r0 h_share.
+Definition rm_all : remove_opts := {| rm_versions := VAll; rm_force := false |}.
+Definition rm_all_forced : remove_opts := {| rm_versions := VAll; rm_force := true |}.
+
+Example reachable_example : xreach all_fixed r_share.
+Proof. apply (xrun_reach all_fixed h_share r0); [apply xr_init|vm_compute; reflexivity]. Qed.
+Example remove_example :       (* both versions of a.txt are needed by others: nothing is deleted; with --force both go *)
+  length (objs (xfs r_share)) = 2%nat /\
+  length (objs (xfs (fst (remove_cmd rm_all [s_a_txt] r_share)))) = 2%nat /\
+  length (objs (xfs (fst (remove_cmd rm_all_forced [s_a_txt] r_share)))) = 0%nat /\
+  length (objs (xfs (fst (remove_cmd rm_all [s_a_txt; s_b_txt] r_share)))) = 1%nat.
+Proof. vm_compute. repeat split; reflexivity. Qed.
+Example remove_ambiguous_example :
+  remove_cmd {| rm_versions := VOnly true []; rm_force := false |} [s_a_txt] r_share = (r_share, Err).
+Proof. vm_compute. reflexivity. Qed.
+Example untrack_example :      (* the symlink and the hard link end as private writable files, objects stay for a.txt *)
+  let '(r', oc) := untrack_cmd all_fixed [s_b_txt; s_c_txt] r_share in
+  oc = Ok /\ length (objs (xfs r')) = 2%nat /\ length (recs (base r')) = 1%nat /\
+  (exists j n, wget (xfs r') s_b_txt = Some (EFile j) /\ iget (xfs r') j = Some n /\ i_w n = true /\ i_bytes n = s_hello) /\
+  (exists j n, wget (xfs r') s_c_txt = Some (EFile j) /\ iget (xfs r') j = Some n /\ i_w n = true /\ i_bytes n = s_other).
+Proof. vm_compute. repeat split; try reflexivity; do 2 eexists; repeat split; reflexivity. Qed.
+Example mat_pre_example :      (* the hypotheses of untrack_materialises hold for the symlinked b.txt *)
+  exists e x, In (e, x) (select r_share [s_b_txt]) /\ mat_pre all_fixed (xfs r_share) x s_hello.
+Proof.
+  do 2 eexists. split; [vm_compute; left; reflexivity|].
+  unfold mat_pre. vm_compute. eexists. split; [reflexivity|]. split; [reflexivity|].
+  exists 1. eexists. repeat split; reflexivity.
+Qed.
+
+(* ---- the known classes (code as it is: flags as_is) -------------------------------------------------------------------------- *)
+Definition C05_full : Prop :=
+  forall fl (h : list xitem) targets,
+    let r := run_xitems fl r0 h in
+    let '(r', oc) := untrack_cmd fl targets r in
+    forall e x c, In (e, x) (select r targets) -> ws_read (xfs r) (r_path x) = Some c ->
+      oc = Ok /\ private_file (xfs r') (r_path x) c.
 
 (* P7: two hard-linked tracked files with equal content; untrack of one leaves it a read-only hard
    link to the shared cache object *)
@@ -16,14 +131,75 @@ Theorem untrack_hardlink_refuted :
               oget (xfs r') (cache_addr s_b_txt (digest_of B3 Auto s_hello)) = Some (EFile i) /\
               iget (xfs r') i = Some n /\ i_w n = false.
 Proof. vm_compute. split; [reflexivity|]. split; [reflexivity|]. do 2 eexists. repeat split; reflexivity. Qed.
+Example untrack_hardlink_fixed :
+  let r := run_xitems all_fixed r0 h_p7 in
+  let '(r', oc) := do_xitem all_fixed r (XUntrack [s_a_txt]) in
+  oc = Ok /\ exists i n, wget (xfs r') s_a_txt = Some (EFile i) /\ iget (xfs r') i = Some n /\ i_w n = true /\
+                         oget (xfs r') (cache_addr s_b_txt (digest_of B3 Auto s_hello)) = Some (EFile 1).
+Proof. vm_compute. split; [reflexivity|]. do 2 eexists. repeat split; reflexivity. Qed.
 
 (* P8: a target that is not in the workspace: panic, nothing untracked *)
 Definition h_p8 : list xitem :=
-  [XBase (UWrite s_a_txt s_hello); XBase (XTrack t_plain [s_a_txt]); XBase (UDelete s_a_txt)].
+  [XBase (UWrite s_a_txt s_hello); XBase (XTrack t_plain [s_a_txt]);
+   XBase (UWrite s_b_txt s_other); XBase (XTrack t_plain [s_b_txt]); XBase (UDelete s_a_txt)].
 Theorem untrack_missing_panics_refuted :
   let r := run_xitems as_is r0 h_p8 in
-  let '(r', oc) := do_xitem as_is r (XUntrack [s_a_txt]) in
-  oc = Panic /\ exists ex, find_path (recs (base r')) s_a_txt = Some ex.
-Proof. vm_compute. split; [reflexivity|]. eexists; reflexivity. Qed.
+  let '(r', oc) := do_xitem as_is r (XUntrack [s_a_txt; s_b_txt]) in
+  oc = Panic /\ (exists ex, find_path (recs (base r')) s_a_txt = Some ex) /\ (exists ex, find_path (recs (base r')) s_b_txt = Some ex).
+Proof. vm_compute. split; [reflexivity|]. split; eexists; reflexivity. Qed.
+Example untrack_missing_fixed :
+  let r := run_xitems all_fixed r0 h_p8 in
+  let '(r', oc) := do_xitem all_fixed r (XUntrack [s_a_txt; s_b_txt]) in
+  oc = Ok /\ recs (base r') = [] /\ objs (xfs r') = [] /\ ws_read (xfs r') s_b_txt = Some s_other.
+Proof. vm_compute. repeat split; reflexivity. Qed.
+
+(* a directory record (made by copy into a new directory) among the targets: panic *)
+Definition s_d_a_txt : bytes := [100; 47; 97; 46; 116; 120; 116].    (* d/a.txt *)
+Definition s_d_dir : bytes := [100; 47].                              (* d/ *)
+Definition s_n_dir : bytes := [110; 47].                              (* n/ *)
+Definition h_dir : list xitem :=
+  [XBase (UWrite s_d_a_txt s_hello); XBase (XTrack t_plain [s_d_a_txt]); XCopy c_plain s_d_dir s_n_dir].
+Theorem untrack_directory_record_refuted :
+  let r := run_xitems as_is r0 h_dir in
+  dirs r <> [] /\ snd (do_xitem as_is r (XUntrack [s_n_dir])) = Panic /\ fst (do_xitem as_is r (XUntrack [s_n_dir])) = r.
+Proof. vm_compute. repeat split; try reflexivity. discriminate. Qed.
+
+Theorem C05_full_refuted : ~ C05_full.
+Proof.
+  intros F. specialize (F as_is h_p8 [s_a_txt; s_b_txt]). cbv zeta in F.
+  destruct (untrack_cmd as_is [s_a_txt; s_b_txt] (run_xitems as_is r0 h_p8)) as [r' oc] eqn:E.
+  assert (OC : oc = Panic) by (vm_compute in E; injection E as _ <-; reflexivity).
+  assert (B : existsb (fun ex : N * frec => N.eqb (fst ex) 3 &&
+                 match ws_read (xfs (run_xitems as_is r0 h_p8)) (r_path (snd ex)) with Some c => beqb c s_other | None => false end)
+                (select (run_xitems as_is r0 h_p8) [s_a_txt; s_b_txt]) = true) by (vm_compute; reflexivity).
+  assert (X : exists x, In (3, x) (select (run_xitems as_is r0 h_p8) [s_a_txt; s_b_txt]) /\
+                        ws_read (xfs (run_xitems as_is r0 h_p8)) (r_path x) = Some s_other).
+  { apply existsb_exists in B. destruct B as ([e x] & I & C). apply andb_true_iff in C. destruct C as (C1 & C2).
+    cbn [fst snd] in C1, C2. apply N.eqb_eq in C1. subst e. exists x. split; [exact I|].
+    destruct (ws_read (xfs (run_xitems as_is r0 h_p8)) (r_path x)) as [c|]; [|discriminate].
+    destruct (beqb_spec c s_other) as [EQ|NE]; [rewrite EQ; reflexivity|discriminate C2]. }
+  destruct X as (x & I & R). destruct (F 3 x s_other I R) as [OK _]. rewrite OC in OK. discriminate OK.
+Qed.
+
+(* a stale symlink: `copy --force --no-recheck` onto a symlinked tracked path changes its recorded digest and leaves
+   the old link in the workspace; untrack then writes the RECORDED content over what the path showed *)
+Definition c_force_nr : copy_opts := {| c_as := None; c_cforce := true; c_no_recheck := true; c_name_only := false |}.
+Definition h_stale : list xitem :=
+  [XBase (UWrite s_a_txt s_hello); XBase (XTrack (t_with Symlink) [s_a_txt]);
+   XBase (UWrite s_b_txt s_other); XBase (XTrack t_plain [s_b_txt]); XCopy c_force_nr s_b_txt s_a_txt].
+Theorem untrack_stale_link_refuted :
+  let r := run_xitems all_fixed r0 h_stale in
+  ws_read (xfs r) s_a_txt = Some s_hello /\
+  let '(r', oc) := do_xitem all_fixed r (XUntrack [s_a_txt]) in oc = Ok /\ ws_read (xfs r') s_a_txt = Some s_other.
+Proof. vm_compute. repeat split; reflexivity. Qed.
+
+Print Assumptions remove_respects_referrers.
+Print Assumptions remove_ambiguous_version_refused.
+Print Assumptions untrack_materialises.
+Print Assumptions untrack_materialises_reachable.
+Print Assumptions others_stay_restorable.
 Print Assumptions untrack_hardlink_refuted.
 Print Assumptions untrack_missing_panics_refuted.
+Print Assumptions untrack_directory_record_refuted.
+Print Assumptions C05_full_refuted.
+Print Assumptions untrack_stale_link_refuted.
